@@ -168,8 +168,11 @@ def handleCfg (cfg : Cfg) (toks : List String) : String :=
   | ["SIGCMP", g, b1, a1, b2, a2] =>
     match Gen.sigTables.find? (·.1 == g), b1.toNat?, a1.toNat?, b2.toNat?, a2.toNat? with
     | some (_, t), some b1, some a1, some b2, some a2 =>
-      match Sig.cmp t (b1, a1) (b2, a2) with
-      | .lt => "Less" | .eq => "Equal" | .gt => "Greater"
+      let o := match Sig.cmp t (b1, a1) (b2, a2) with
+        | .lt => "Less" | .eq => "Equal" | .gt => "Greater"
+      let p := match Sig.partialCmp t (b1, a1) (b2, a2) with
+        | some .lt => "Less" | some .eq => "Equal" | some .gt => "Greater" | none => "None"
+      o ++ " " ++ p
     | _, _, _, _, _ => "BAD-OP"
   | "SERDESTR" :: kind :: n :: cps =>
     match n.toNat?, parseNatsSp cps with
